@@ -2751,10 +2751,10 @@ func (db *DB) Export(ctx context.Context, dst io.Writer) (ltx.Pos, error) {
 		walFrameOffsets[k] = v
 	}
 
-	// Release write lock, if acquired.
-	gs.write.Unlock()
-
 	// Acquire the CKPT & READ locks to prevent checkpointing, in case this is in WAL mode.
+	// The temporary write lock is kept until they are held: otherwise a commit followed by
+	// a checkpoint (or a WAL truncation/restart) could change the files underneath the
+	// position, size & frame offsets captured above.
 	if err := gs.ckpt.RLock(ctx); err != nil {
 		return pos, fmt.Errorf("acquire CKPT read lock: %w", err)
 	}
@@ -2776,6 +2776,9 @@ func (db *DB) Export(ctx context.Context, dst io.Writer) (ltx.Pos, error) {
 	if err := gs.read4.RLock(ctx); err != nil {
 		return pos, fmt.Errorf("acquire READ4 read lock: %w", err)
 	}
+
+	// Release write lock, if acquired.
+	gs.write.Unlock()
 
 	// Open database file.
 	dbFile, err := db.os.Open("EXPORT:DB", db.DatabasePath())
